@@ -452,7 +452,9 @@ class FormulaMaterializer(metaclass=FormulaMaterializerMeta):
                 scoped_terms: Iterable[ScopedTerm] = self._simplify_scoped_terms(
                     term_span
                 )
-                spanned.update(term_span)
+                # A term scaled by a literal zero contributes only zeros, and
+                # so spans nothing that later terms could be reduced against.
+                spanned.update(st for st in term_span if st.scale != 0)
             else:
                 scoped_terms = [
                     ScopedTerm(
